@@ -19,7 +19,8 @@ AST (python tuples/lists; JSON round trip turns tuples into lists, everything be
   All these bindings have the SAME name `s` in the JavaScript (shadowing) and are captured by closures (so each lives in its
   own scope object): inside depth d, `s` means slot 6+d; an outer slot 6+d' (d' < d) is reached through the closures
   GS<d'>() / SS<d'>(v) / WS<d'>(v) declared with it.
-  spec : (id, is_gen, ret(0 none,1 ok,2 throws), thr(0 none,1 rethrow,2 done,3 continue), [items]);  lbl : None | int
+  spec : (id, is_gen, ret(0 none,1 ok,2 throws,3 non-object), thr(0 none,1 rethrow,2 done,3 continue,4 non-object), [items]);
+         id >= 10 (object kind): the iterator's second next() makes a re-entrant G.next/throw/return (id//10-1);  lbl : None | int
 """
 import json, os, itertools, hashlib, time
 from concurrent.futures import ThreadPoolExecutor
@@ -382,6 +383,14 @@ def systematic_bodies():
                     bs.append([O(1, ("t", sp), [G(A(V(1), y1))]), G(L("sd"))])                     # for-of over it
                     bs.append([TR([O(1, ("t", sp), [TR([G(y1)], None, [G(L("sfi"))])])], (0, [G(V(0))]), [G(y2)])])
                     bs.append([TR([O(1, ("t", sp), [("I", ("EQ", y1, L("i7")), [BK()], [CN()])])], (0, [G(V(0))]), None), G(L("sd"))])
+    # yield* / for-of corner cases: result of return()/throw() not an object; re-entrant driver call from inside the iterator
+    for sp in (spec(1, 0, 3, 0), spec(2, 0, 1, 4), spec(3, 0, 3, 4), spec(4, 0, 0, 4)):
+        bs.append([TR([G(A(L("sv"), YS(sp)))], (0, [G(V(0)), G(y1)]), [G(L("sf"))]), G(L("sd"))])
+        bs.append([TR([O(1, ("t", sp), [("I", ("EQ", y1, L("i7")), [BK()], [])])], (0, [G(V(0))]), None), G(L("sd"))])
+    for kd in (1, 2, 3):
+        sp = spec(10 * kd + 5, 0, 1, 1, ["i1", "i2", "i3"])
+        bs.append([TR([G(A(L("sv"), YS(sp)))], (0, [G(V(0)), G(y1)]), [G(L("sf"))]), G(L("sd"))])
+        bs.append([TR([O(1, ("t", sp), [G(A(V(1), y1))])], (0, [G(V(0))]), None), G(L("sd"))])
     bs.append([O(0, ("t", spec(1, 1)), [O(1, ("t", spec(2, 0, 1, 0)), [G(CJ(V(0), V(1), y1))])]), G(L("sd"))])
     bs.append([O(0, ("t", spec(1, 1)), [G(y1), BK()]), G(y2)])
     bs.append([X(YS(spec(3, 0, 1, 0, []))), X(YS(spec(4, 1, 0, 0, []))), G(y1)])
@@ -427,9 +436,12 @@ class Gen:
         self.nid = (self.nid + 1) % 10
         is_gen = self.r.random() < 0.5
         items = [self.r.choice(["i1", "i2", "sk", "u"]) for _ in range(self.r.choice([0, 1, 2, 2, 3]))]
-        ret = 0 if is_gen else self.r.choice([0, 1, 1, 2])
-        thr = 0 if is_gen else (self.r.randrange(2) if ret == 2 else self.r.randrange(4))
-        return spec(self.nid, int(is_gen), ret, thr, items)
+        ret = 0 if is_gen else self.r.choice([0, 1, 1, 2, 3])
+        thr = 0 if is_gen else (self.r.randrange(2) if ret in (2, 3) else self.r.randrange(5))
+        id = self.nid
+        if not is_gen and len(items) > 1 and self.r.random() < 0.25:
+            id += 10 * self.r.randrange(1, 4)          # re-entrant call from inside the iterator's second next()
+        return spec(id, int(is_gen), ret, thr, items)
 
     def avar(self):
         """a variable to read / assign: x0, x1, x4, x5 or the `s` of one of the block scopes currently open"""
@@ -579,11 +591,11 @@ def cut_async(trace):
     return " ".join(out)
 
 class Case:
-    __slots__ = ("body", "decl", "mode", "probe", "hists", "depths", "create", "tag", "exp", "sig")
+    __slots__ = ("body", "decl", "mode", "probe", "hists", "depths", "create", "tag", "exp", "sig", "gidx")
     def __init__(self, body, decl, mode, probe, hists, depths, create, tag, sig=None):
         self.body, self.decl, self.mode, self.probe = body, decl, mode, probe
         self.hists, self.depths, self.create, self.tag = hists, depths, create, tag
-        self.exp, self.sig = None, sig
+        self.exp, self.sig, self.gidx = None, sig, None
     def src(self): return js_func(self.body, self.mode, self.probe, self.decl)
     def tokens(self): return " ".join(tok_block(self.body))
     def harness_line(self):
@@ -595,9 +607,28 @@ class Case:
     def single(self, i):
         return Case(self.body, self.decl, self.mode, self.probe, [self.hists[i]], [self.depths[i]], [self.create[i]], self.tag, self.sig)
 
+KNOWN_G = "goja:yield-star-reentrant-call-from-inside-the-delegate-is-not-rejected"
+import re
+_RX = re.compile(r"I(\d\d+)x")
+
+def yield_star_ids(body):
+    return set(e[1][0] for s in body for e in stmt_exprs(s) if e[0] == "YS")
+
 def set_expected(case, model_out):
+    """case.exp = spec traces; case.gidx[i] = first command of history i during which a yield*-delegate makes a re-entrant
+    call on the generator (unrepaired finding G, known_findings.d/C09.json: goja does not reject it) or None."""
     tr = model_out.split(" # ")
     case.exp = [cut_async(t) for t in tr] if case.mode == "async" else tr
+    ids = yield_star_ids(case.body) if case.mode == "gen" else set()
+    gidx = []
+    for t in case.exp:
+        idx = None
+        if ids:
+            for j, part in enumerate(t.split(" ")):
+                if any(int(m) in ids for m in _RX.findall(part.split(";", 1)[0])):
+                    idx = j; break
+        gidx.append(idx)
+    case.gidx = gidx
 
 def first_diff(exp, obs):
     e, o = exp.split(" "), obs.split(" ")
@@ -619,6 +650,12 @@ def compare(case, hline):
     mm = [(i, exp[i] if i < len(exp) else "?", obs[i] if i < len(obs) else "?")
           for i in range(max(len(exp), len(obs))) if i >= len(exp) or i >= len(obs) or exp[i] != obs[i]]
     return mm, h.get("mech") or [], h.get("idle", "ok"), None
+
+def explained_by_G(case, i, exp, obs):
+    gi = case.gidx[i] if case.gidx else None
+    if gi is None: return False
+    d = first_diff(exp, obs)
+    return d is not None and d >= gi
 
 # ----------------------------------------------------------------------------------------- shrinking
 def replace_block(s, key, nb):
@@ -658,6 +695,7 @@ def single_mismatch(ctx, harness, model, case):
     if rc == 124 or not hl:
         return (0, case.exp[0], "goja did not return within 240 s (hang or crash): " + err[-200:])
     mm, _, idle, _ = compare(case, hl[0])
+    mm = [m for m in mm if not explained_by_G(case, m[0], m[1], m[2])]
     if not mm and idle != "ok":
         mm = [(0, case.exp[0] + " / idle ok", json.loads(hl[0]).get("traces", ["?"])[0] + " / " + idle)]
     return mm[0] if mm else None
@@ -832,7 +870,7 @@ def main(ctx):
         ctx.obligation("corr:model-run", "correspondence", False, "model driver unavailable or failing (Lean build broken?)")
         indep_oracle(ctx, cases, hl)        # the implementation-side search still runs: laws that need no model
         return ctx.finish(level="proof", rule=RULE)
-    n_hist = 0; bad = {"gen": [], "async": []}; mech = {}; idle_bad = []
+    n_hist = 0; bad = {"gen": [], "async": []}; mech = {}; idle_bad = []; g_hits = []
     feats = {}; reskinds = {"Y": 0, "D": 0, "T": 0}; lens = {}; depth_used = {}
     for c, h in zip(cases, hl):
         if h is None:
@@ -843,7 +881,11 @@ def main(ctx):
             mech[q] = o
         if idle != "ok":
             idle_bad.append((c, idle))
-        bad[c.mode].extend((c, i, e, o) for i, e, o in mm)
+        for (i, e, o) in mm:
+            if explained_by_G(c, i, e, o):
+                g_hits.append((c, i, e, o))
+            else:
+                bad[c.mode].append((c, i, e, o))
         if not mm:
             for f in body_features(c.body):
                 feats[f] = feats.get(f, 0) + 1
@@ -858,6 +900,10 @@ def main(ctx):
             if c.mode == "gen":
                 for d in c.depths:
                     for ch in d: depth_used[ch] = depth_used.get(ch, 0) + 1
+    ctx.stats["unrepaired_finding_G"] = {"histories_in_territory": sum(1 for c in cases if c.gidx for x in c.gidx if x is not None), "disagreements_attributed": len(g_hits)}
+    for (c, i, e, o) in g_hits[:1]:
+        c1 = c.single(i)
+        ctx.violation(KNOWN_G, "%s {%s} history [%s]: spec %s / goja %s" % (c1.mode, c1.src()[:260], c1.hists[0], e, o), replay_dict(c1, e, o, False))
     ctx.count(n_hist)
     for c in cases[:3] + cases[-3:]:
         ctx.sample({"mode": c.mode, "src": c.src()[:400], "history": c.hists[-1], "depths": c.depths[-1]})
